@@ -35,10 +35,25 @@ afterwards: the model is mutable), "copy" (a model_copy / copy of the constructe
 LabelScheduleSource.get_schedules(), which copies cron_offset onto every schedule).  A group with "source": "label"
 (build-first only) registers ALL its schedules as labels of one broker and builds them with ONE get_schedules() call.
 "reoff" on an element that re-evaluates an existing task: the offset is re-assigned on that task object first.
-The statement for a schedule with a target time mentions none of these fields."""
+The statement for a schedule with a target time mentions none of these fields.
+
+A group element may carry "re": the schedule OBJECT in slot "task" (or "src") has been evaluated before and is re-worked
+before THIS evaluation - what a long-lived in-memory schedule source does to postpone / pull forward / re-arm a schedule.
+"derive": the evaluated object is a copy of the one in slot "src" (default: the element's own slot) - model_copy /
+model_copy(deep) / copy.copy / copy.deepcopy / a pickle round trip / model_validate(model_dump()) / the JSON round trip -
+and takes the element's slot from then on (the source object stays in its own slot when "src" names another one);
+"set_time": the element's own spelled datetime becomes the target (`task.time = value`, or part of the `update=` of the
+copy when "in_copy"); "set": other fields assigned the same way (task_name / labels / args / kwargs / schedule_id / cron /
+cron_offset).  The element's T is the target the object carries at this evaluation; an element that does not set the time
+itself relies on its predecessors: the driver reads task.time back (instant_us, its own arithmetic) and marks the
+observation "stale" (not an observation of the statement) when the object does not carry the element's T - so that a
+shrunk group, from which the assignment was dropped, cannot be misread.  Every observation of a group carries
+`carried_us`: the instant of task.time as read back from the evaluated object."""
+import copy
 import datetime as dt
 import json
 import os
+import pickle
 import time
 import traceback
 import zoneinfo
@@ -270,6 +285,49 @@ def seen(t):
     return {"off_seen": so, "cron_seen": t.cron}
 
 
+FIELD = {"name": "task_name", "labels": "labels", "args": "args", "kwargs": "kwargs", "sid": "schedule_id", "cron": "cron"}
+
+
+def carried_us(t):
+    """the instant of the target time the task object carries right now, read by the harness' own arithmetic"""
+    v = getattr(t, "time", None)
+    return instant_us(v) if isinstance(v, dt.datetime) else None
+
+
+def derive(t, how, upd):
+    """a copy of task t the way applications take one; upd: fields handed to the copy operation itself (or None).
+    (The harness reads its zoneinfo zones with ZoneInfo.from_file: CPython refuses to pickle / deep-copy such objects -
+    "Cannot pickle a ZoneInfo file from a file stream" - wherever one sits in the task, its labels included: a property of
+    the harness' zone objects, so exactly that refusal makes the copy a shallow one.)"""
+    try:
+        return derive0(t, how, upd)
+    except pickle.PicklingError as e:
+        if "ZoneInfo file from a file stream" not in str(e):
+            raise
+        return derive0(t, {"model_copy_deep": "model_copy"}.get(how, "copy.copy"), upd)
+
+
+def derive0(t, how, upd):
+    if how in ("model_copy", "model_copy_deep"):
+        cp = getattr(t, "model_copy", None) or t.copy
+        return cp(update=upd, deep=how == "model_copy_deep") if upd else cp(deep=how == "model_copy_deep")
+    if how in ("revalidate", "revalidate_iso"):    # a NEW object from the dumped fields (what a storing source does)
+        data = (getattr(t, "model_dump", None) or t.dict)()
+        data.update(upd or {})
+        if how == "revalidate_iso" and isinstance(data.get("time"), dt.datetime):
+            data["time"] = data["time"].isoformat()     # the time as a JSON store keeps it
+        return (getattr(ScheduledTask, "model_validate", None) or ScheduledTask.parse_obj)(data)
+    if how == "copy.deepcopy":
+        n = copy.deepcopy(t)
+    elif how == "pickle":
+        n = pickle.loads(pickle.dumps(t))
+    else:
+        n = copy.copy(t)
+    for f, v in (upd or {}).items():
+        setattr(n, f, v)
+    return n
+
+
 def run_group(c):
     elems = c["group"]
     set_host(elems[0].get("host") if elems else None)   # one scheduler process has one system zone
@@ -281,16 +339,44 @@ def run_group(c):
             fresh.append(None)
     tzc, objs, tasks, built, out, offc = {}, {}, {}, {}, [None] * len(elems), {}
 
-    def value(e):
+    def value(e, raw=False):
         d = objs.get(e.get("obj")) if e.get("obj") is not None else None
         if d is None:
             d = spell(e["T"], e["spell"], tzc)
             if e.get("obj") is not None:
                 objs[e["obj"]] = d
-        return d.isoformat() if e.get("via") == "iso" else d
+        return d.isoformat() if e.get("via") == "iso" and not raw else d
+
+    def rework(k):
+        """the object of an earlier evaluation, re-worked for this one (see the module text: "re")"""
+        e = elems[k]
+        re = e["re"]
+        t = tasks.get(re.get("src", e.get("task")))
+        if t is None or isinstance(t, int):   # its slot was never filled (a shrunk group): an ordinary new schedule
+            t = make_task(value(e), e.get("sched"), offc)
+            if e.get("task") is not None:
+                tasks[e["task"]] = t
+            return t, False
+        if not re.get("set_time") and carried_us(t) != e["T"]:
+            return t, True                     # the element's T was assigned by an element that is not there
+        upd = {}
+        if re.get("set_time"):                 # (attributes are not validated on assignment: always a datetime)
+            upd["time"] = value(e, raw=True)
+        for f, v in (re.get("set") or {}).items():
+            upd[FIELD.get(f, f)] = as_timedelta(v) if f == "cron_offset" else json.loads(json.dumps(v))
+        if re.get("derive"):
+            t = derive(t, re["derive"], upd if re.get("in_copy") else None)
+        if not (re.get("derive") and re.get("in_copy")):
+            for f, v in upd.items():
+                setattr(t, f, v)
+        if e.get("task") is not None:
+            tasks[e["task"]] = t
+        return t, False
 
     def build(k):
         e = elems[k]
+        if "re" in e:     # re-worked objects come into being at their evaluation, whatever the construction order
+            return
         try:
             if e.get("task") is not None and e["task"] in tasks:
                 built[k] = tasks[e["task"]]
@@ -306,7 +392,7 @@ def run_group(c):
         named, first = [], []
         for k in order:
             e = elems[k]
-            if e.get("task") is not None and e["task"] in tasks:
+            if "re" in e or (e.get("task") is not None and e["task"] in tasks):
                 continue
             sc = e.get("sched") or {}
             try:
@@ -345,7 +431,7 @@ def run_group(c):
                     del tasks[key]
         for k in order:
             e = elems[k]
-            if k not in built and out[k] is None and e.get("task") in tasks:
+            if k not in built and out[k] is None and e.get("task") in tasks and "re" not in e:
                 built[k] = tasks[e["task"]]
 
     if c.get("mode") == "build-first":
@@ -360,9 +446,15 @@ def run_group(c):
             build(k)
         if out[k] is None:
             try:
+                stale = False
+                if "re" in e:
+                    built[k], stale = rework(k)
                 if "reoff" in e:      # the offset re-assigned on the existing task object before this evaluation
                     built[k].cron_offset = as_timedelta(e["reoff"])
                 out[k] = observe(e, built[k])
+                out[k]["carried_us"] = carried_us(built[k])
+                if stale:
+                    out[k]["stale"] = True
             except Exception:
                 out[k] = {"_crash": traceback.format_exc()[-2000:]}
         out[k]["spelled_us"] = fresh[k]
